@@ -102,12 +102,13 @@ func (m *MessageCertificateRequest) Unmarshal(data []byte) error { //nolint:cycl
 	if (offset + signatureHashAlgorithmsLength) > len(data) {
 		return dtlserrors.ErrBufferTooSmall
 	}
+	// The vector holds two-byte schemes: an odd length would make the last
+	// scheme borrow the first byte of what follows the vector.
+	if signatureHashAlgorithmsLength%2 != 0 {
+		return dtlserrors.ErrLengthMismatch
+	}
 
-	for i := 0; i < signatureHashAlgorithmsLength; i += 2 {
-		if len(data) < (offset + i + 2) {
-			return dtlserrors.ErrBufferTooSmall
-		}
-
+	for i := 0; i+2 <= signatureHashAlgorithmsLength; i += 2 {
 		scheme := binary.BigEndian.Uint16(data[offset+i : offset+i+2])
 		var alg signaturehash.Algorithm
 		if err := alg.Unmarshal(tls.SignatureScheme(scheme)); err != nil {
